@@ -833,3 +833,44 @@ def install_rp66v1_framearray_contracts():
     C = RLP.RP66V1FrameChannel
     C.read = icontract.snapshot(_index_of, name='tdv_index')(icontract.ensure(fc_read_consumes, error=FrameArrayContractBroken)(C.read))
     C.seek = icontract.snapshot(_index_of, name='tdv_index')(icontract.ensure(fc_seek_skips, error=FrameArrayContractBroken)(C.seek))
+
+
+# ------------------------------------------------------------------ util.XmlWrite (C18)
+def install_xmlwrite_contracts():
+    """XmlStream (and XhtmlStream / SVGWriter, which inherit the methods): the open-element stack and the can-indent stack
+    have the same length after every public call; a start tag is only pending while an element is open; after __exit__ both
+    stacks are empty and no start tag is pending."""
+    if 'xmlwrite' in _installed:
+        return
+    _installed.add('xmlwrite')
+    import icontract
+    from TotalDepth.util import XmlWrite as X
+
+    class XmlStreamContractBroken(Exception):
+        pass
+
+    def stacks_consistent(self):
+        return _stacks_consistent(self)
+
+    @_guarded
+    def _stacks_consistent(self):
+        COUNTS['XmlStream.stacks'] += 1
+        if len(self._elemStk) != len(self._canIndentStk):
+            _breach('XmlStream.stacks', 'open elements %r but %d can-indent flags' % (self._elemStk[-6:], len(self._canIndentStk)))
+        if self._inElem and not self._elemStk:
+            _breach('XmlStream.stacks', 'a start tag is pending but no element is open')
+
+    def closed_after_exit(self):
+        return _closed_after_exit(self)
+
+    @_guarded
+    def _closed_after_exit(self):
+        COUNTS['XmlStream.exit'] += 1
+        if self._elemStk or self._canIndentStk or self._inElem:
+            _breach('XmlStream.exit', 'after __exit__: open elements %r, %d can-indent flags, start tag pending %r' % (
+                self._elemStk[-6:], len(self._canIndentStk), self._inElem))
+
+    S = X.XmlStream
+    for name in ('startElement', 'endElement', 'characters', 'literal', 'comment', 'pI', 'writeECMAScript', 'xmlSpacePreserve'):
+        setattr(S, name, icontract.ensure(stacks_consistent, error=XmlStreamContractBroken)(getattr(S, name)))
+    S.__exit__ = icontract.ensure(closed_after_exit, error=XmlStreamContractBroken)(S.__exit__)
